@@ -93,5 +93,6 @@ int main(int argc, char **argv) {
     pthread_join(th[t], 0);
   }
   if (vf_check) vf_check();
-  return 0;
+  fflush(stdout); fflush(stderr);
+  _Exit(0);       /* no static destructors: a scenario may legitimately end with a mutex still owned, which the library's destructor assert()s on */
 }
